@@ -11,7 +11,9 @@ import (
 	"errors"
 	"fmt"
 	"runtime"
+	"sort"
 	"strings"
+	"sync/atomic"
 	"testing"
 	"time"
 
@@ -32,6 +34,10 @@ type vC19Call struct {
 
 type vC19Under struct {
 	arrivals chan vC19Call
+	// a fetch that ended through its context (the observe timeout) BEFORE Close was called: the worker came back on
+	// its own, which the scripted schedule does not know - the machine was too slow for the timeout of this schedule
+	closing atomic.Bool
+	early   atomic.Int64
 }
 
 func vC19IDN(b cciptypes.Bytes32) uint64 { return uint64(b[31]) | uint64(b[30])<<8 }
@@ -59,6 +65,9 @@ func (u *vC19Under) Observe(ctx context.Context, obs exectypes.MessageObservatio
 				}
 				return exectypes.TokenDataObservations{chain: {seq: f.data}}, nil
 			case <-ctx.Done():
+				if !u.closing.Load() {
+					u.early.Add(1)
+				}
 				return nil, ctx.Err()
 			}
 		}
@@ -130,7 +139,9 @@ func (h *vC19Run) tdCoq(d exectypes.MessageTokenData) string {
 
 // drains gate arrivals into BTake events until the workers are saturated or nothing waits
 func (h *vC19Run) settle() {
-	deadline := time.Now().Add(500 * time.Millisecond)
+	// the deadline only matters when the observer does not do what the schedule expects (then the probe shows what is
+	// there); it is a watch, not a wall-clock instant: a loaded machine stretches it
+	w := vNewWatch(5 * time.Second)
 	drain := func() {
 		for {
 			select {
@@ -152,14 +163,14 @@ func (h *vC19Run) settle() {
 	}
 	for {
 		drain()
-		if h.closed || quiet() || time.Now().After(deadline) {
+		if over := h.under.early.Load() > 0 || w.Expired(); h.closed || quiet() || over {
 			time.Sleep(300 * time.Microsecond)
 			drain()
-			if h.closed || quiet() || time.Now().After(deadline) {
+			if h.closed || quiet() || over {
 				return
 			}
 		}
-		time.Sleep(50 * time.Microsecond)
+		w.Nap()
 	}
 }
 
@@ -209,6 +220,7 @@ func (h *vC19Run) observe(ms []vC19Msg) {
 		}
 		in[cciptypes.ChainSelector(m.chain)][cciptypes.SeqNum(m.seq)] = m.msg()
 	}
+	tpre := time.Now()
 	// how many of these will be handed to the queue (asked of the observer's own cache and id set; if those are wrong
 	// the wait below simply runs into its deadline and the probe shows what is there)
 	counted := map[uint64]bool{}
@@ -236,13 +248,21 @@ func (h *vC19Run) observe(ms []vC19Msg) {
 	}()
 	h.evs = append(h.evs, cApp("BObserve", cMap(ms, vC19Msg.coq), cN(h.us(t0))))
 	h.show = append(h.show, fmt.Sprintf("observe(%d msgs)", len(ms)))
-	select {
-	case rr := <-done:
+	// Observe answers within microseconds; "Blocked" is decided by a watch (3 s and this goroutine scheduled all along)
+	rr, returned := vRecvW(done, 3*time.Second)
+	if returned {
 		t1 := time.Now()
 		for _, m := range ms {
 			if lo, ok := h.setLo[m.idn]; ok {
-				if t0.Before(lo.Add(h.ttl)) && !t1.Before(lo.Add(h.ttl)) {
-					h.discard = true // the call straddled an expiry instant: not a usable sample
+				// The entry of m was stored at an instant in [lo, hi] and expires one ttl later; the model takes hi. What the
+				// harness read of the cache (from tpre on) and what Observe read of it (until t1) agree with the model when
+				// all of that happened before lo+ttl (fresh for sure) or after hi+ttl (stale for sure). Anything else -
+				// whatever pause of the machine caused it - is not a usable sample.
+				const margin = 300 * time.Microsecond
+				fresh := t1.Before(lo.Add(h.ttl - margin))
+				stale := tpre.After(h.setHi[m.idn].Add(h.ttl + margin))
+				if !fresh && !stale {
+					h.discard = true
 				}
 			}
 		}
@@ -270,7 +290,7 @@ func (h *vC19Run) observe(ms []vC19Msg) {
 			ents = append(ents, cTup(cN(0), cN(0), "[]")) // entries nobody asked for
 		}
 		h.outs = append(h.outs, cApp("OObs", cApp("Done", cList(ents))))
-	case <-time.After(300 * time.Millisecond):
+	} else {
 		h.outs = append(h.outs, cApp("OObs", "Blocked"))
 		h.blocked = true
 		h.show = append(h.show, "BLOCKED")
@@ -339,13 +359,12 @@ func (h *vC19Run) ret(idx int, m vC19Msg, class string) {
 	call.ch <- f
 	stored := f.kind == 0 && f.data.SupportedAreReady()
 	if stored {
-		deadline := time.Now().Add(500 * time.Millisecond)
-		for time.Now().Before(deadline) {
-			if e, ok := h.expiresAt(id); ok && (!had || !e.Equal(before)) {
-				break
-			}
-			time.Sleep(20 * time.Microsecond)
-		}
+		// the event: the worker has written the entry (in-package view). If it never does, the watch ends the wait and
+		// the schedule goes on - the model will then disagree with what Observe answers
+		vAwait(5*time.Second, func() bool {
+			e, ok := h.expiresAt(id)
+			return ok && (!had || !e.Equal(before))
+		})
 	} else {
 		time.Sleep(300 * time.Microsecond)
 	}
@@ -401,7 +420,12 @@ func vC19Schedule(t *testing.T, r *vRand, cls string, sink *vSink, composite boo
 	}
 	timeout := 5 * time.Second
 	if h.never {
-		timeout = 150 * time.Millisecond
+		// fetches left unanswered run into this timeout after Close; the schedule before Close has to fit into it (when
+		// it does not - a fetch ends early, vC19Under.early - the sample is thrown away), so it follows the scheduling
+		// latency of the machine
+		if timeout = vScaled(150 * time.Millisecond); timeout > 1500*time.Millisecond {
+			timeout = 1500 * time.Millisecond
+		}
 	}
 	h.under = &vC19Under{arrivals: make(chan vC19Call, 1024)}
 	runtime.Gosched()
@@ -513,7 +537,20 @@ func vC19Schedule(t *testing.T, r *vRand, cls string, sink *vSink, composite boo
 			time.Sleep(time.Until(last.Add(h.ttl).Add(2 * time.Millisecond)))
 			h.show = append(h.show, "sleep")
 			if !h.longGC {
-				time.Sleep(8 * time.Millisecond)
+				// everything stored so far has expired; the event waited for is a pass of the cleanup loop (interval 2 ms) over
+				// the cache: no expired entry is left (in-package view). A loop that never removes them runs into the watch.
+				vAwait(2*time.Second, func() bool {
+					c := h.o.cachedTokenData
+					c.mu.RLock()
+					defer c.mu.RUnlock()
+					now := time.Now().UTC()
+					for id := range c.inMemTokenData {
+						if e, ok := c.expiresAt[id]; !ok || now.After(e) {
+							return false
+						}
+					}
+					return true
+				})
 				h.evs = append(h.evs, cApp("BTick", cN(h.us(time.Now()))))
 				h.outs = append(h.outs, "ONone")
 				h.cacheSize()
@@ -537,6 +574,15 @@ func vC19Schedule(t *testing.T, r *vRand, cls string, sink *vSink, composite boo
 	h.outs = append(h.outs, "ONone")
 	h.show = append(h.show, "close")
 	h.closed = true
+	h.under.closing.Store(true)
+	// the waiting messages, oldest first (in-package view), as they are when Close is called
+	qpos := map[uint64]int{}
+	h.o.msgQueue.mu.RLock()
+	for i, m := range h.o.msgQueue.msgs {
+		qpos[vC19IDN(m.msg.Header.MessageID)] = i + 1
+	}
+	h.o.msgQueue.mu.RUnlock()
+	var post []uint64
 	closeDone := make(chan struct{})
 	go func() { _ = h.top.Close(); close(closeDone) }()
 	closeOK := true
@@ -554,7 +600,11 @@ func vC19Schedule(t *testing.T, r *vRand, cls string, sink *vSink, composite boo
 			h.ret(0, byID[id], vPick(r, []string{"ready", "err"}))
 		}
 	}
-	deadline := time.After(2 * time.Second)
+	// Close returns within microseconds (class never: after the observe timeout); "did not return" and "goroutines
+	// left" are decided by watches
+	cw := vNewWatch(10*time.Second + timeout)
+	tick := time.NewTicker(time.Millisecond)
+	defer tick.Stop()
 wait:
 	for {
 		select {
@@ -562,27 +612,33 @@ wait:
 			break wait
 		case c := <-h.under.arrivals:
 			// a worker that came back after done was closed may still win one more signal
-			h.evs = append(h.evs, cApp("BTake", cN(c.id)), cApp("BReturn", cN(c.id), "FErr", cN(h.us(time.Now()))))
-			h.outs = append(h.outs, cApp("OTake", "true", "true"), "ONone")
+			post = append(post, c.id)
 			c.ch <- vC19Fetch{kind: 1}
-		case <-deadline:
-			closeOK = false
-			break wait
+		case <-tick.C:
+			if cw.Credit(time.Millisecond); cw.Expired() {
+				closeOK = false
+				break wait
+			}
 		}
+	}
+	// The fetches in flight were all returned at once, so several workers may have come back together and each have
+	// taken one more message: WHICH of them reached the gate first is the scheduler's choice, not the observer's. The
+	// pick-ups are therefore recorded oldest message first (a pick-up that is not from the head of the queue still
+	// shows as such).
+	sort.SliceStable(post, func(a, b int) bool {
+		pa, pb := qpos[post[a]], qpos[post[b]]
+		return pa != 0 && (pb == 0 || pa < pb)
+	})
+	for _, id := range post {
+		h.evs = append(h.evs, cApp("BTake", cN(id)), cApp("BReturn", cN(id), "FErr", cN(h.us(time.Now()))))
+		h.outs = append(h.outs, cApp("OTake", "true", "true"), "ONone")
 	}
 	if closeOK && !h.blocked && r.Chance(1, 3) {
 		// after Close an Observe must still answer at once (cached data, or placeholders)
 		h.observe(pick())
 	}
-	noLeak := false
-	for end := time.Now().Add(1 * time.Second); time.Now().Before(end); {
-		if runtime.NumGoroutine() <= baseline {
-			noLeak = true
-			break
-		}
-		time.Sleep(200 * time.Microsecond)
-	}
-	if h.discard {
+	noLeak := vAwait(10*time.Second, func() bool { return runtime.NumGoroutine() <= baseline })
+	if h.discard || h.under.early.Load() > 0 {
 		return false
 	}
 	in := cTup(cNi(h.W), cN(uint64(h.ttl/time.Microsecond)), cList(h.evs))
@@ -596,6 +652,25 @@ wait:
 	return true
 }
 
+// a sample thrown away for timing is drawn again (up to 8 times); when the machine is too loaded for all of them the
+// case is recorded as such - class discarded-timing, trivial, the empty schedule (which model and property accept) -
+// instead of being dropped silently
+func vC19Tries(t *testing.T, r *vRand, cls string, sink *vSink, composite bool) {
+	for try := 0; try < 8; try++ {
+		if vC19Schedule(t, r, cls, sink, composite) {
+			return
+		}
+	}
+	in := cTup(cNi(1), cN(25000), "[]")
+	out := cPair("[]", cPair(cBool(true), cBool(true)))
+	part := "bg"
+	if composite {
+		part = "comp"
+		out = cPair(out, cBool(true))
+	}
+	sink.Emit(part, "discarded-timing", false, cPair(in, out), "every sample of class "+cls+" was disturbed by the machine's timing")
+}
+
 func TestVerif_C19(t *testing.T) {
 	r := vNewRand(vSeed() + 1901)
 	n := vEnvInt("VERIF_N", 100)
@@ -604,11 +679,7 @@ func TestVerif_C19(t *testing.T) {
 	classes := []string{"mixed", "refetch", "saturate", "never", "mixed", "refetch"}
 	for i := 0; i < n; i++ {
 		cls := classes[i%len(classes)]
-		for try := 0; try < 5; try++ {
-			if vC19Schedule(t, r, cls, sink, false) {
-				break
-			}
-		}
+		vC19Tries(t, r, cls, sink, false)
 	}
 }
 
@@ -622,10 +693,6 @@ func TestVerif_C19_comp(t *testing.T) {
 	classes := []string{"mixed", "refetch", "saturate", "never", "mixed", "refetch"}
 	for i := 0; i < n; i++ {
 		cls := classes[i%len(classes)]
-		for try := 0; try < 5; try++ {
-			if vC19Schedule(t, r, cls, sink, true) {
-				break
-			}
-		}
+		vC19Tries(t, r, cls, sink, true)
 	}
 }
